@@ -183,6 +183,11 @@ def c20_program(ks, repeat_lens):
         main.append("    { let a = gen_rep::<%d>(); let ev = take(); rec(\"repeat_constgeneric\", %d, &ev, a.as_slice(), a.len(), &ev, a.as_slice(), a.len()); }" % (n, n))
         consts.append("const CG_%d: GenericArray<i64, generic_array::ConstArrayLength<%d>> = cgen_rep::<%d>();" % (n, n, n))
         main.append("    rec(\"const_repeat\", %d, &[], CG_%d.as_slice(), CG_%d.len(), &[], CG_%d.as_slice(), CG_%d.len());" % (n, n, n, n, n))
+    # a length given by a generic TYPE parameter of the enclosing fn: box_arr!'s type-level repeat form accepts it
+    # (arr!'s names the length in an inner const item and cannot see outer generics - not demanded)
+    w("fn tgen_rep<N: generic_array::ArrayLength>() -> (Box<GenericArray<i64, N>>, Vec<i64>) { let b = box_arr![e(7); N]; let bev = take(); (b, bev) }")
+    for n in [x for x in repeat_lens if x <= 1024][:6]:
+        main.append("    { let (b, bev) = tgen_rep::<U%d>(); rec(\"repeat_ty\", %d, &bev, b.as_slice(), b.len(), &bev, b.as_slice(), b.len()); }" % (n, n))
     # hygiene: the macros are invoked where the usual names mean something else
     hyg = """
 mod hyg {
